@@ -77,6 +77,11 @@ def cases(tier, seed):
                     spec = S.mk(2, obj, rows, vk, x0_idx=x0i)
                     for sc in G.scalings_of(spec, (0, 2)):
                         out.append({"t": "A", "spec": spec, "cfg": {"iteration_limit": HORIZON[tier]}, "sc": sc})
+    # (A5) non-default tolerances, controller gains, unvalidated input, user-supplied active-set rule
+    for spec in G.core_specs():
+        for vi, var in enumerate(G.PARAM_VARIANTS):
+            for ctl in ("DistanceRatio", "Exact"):
+                out.append({"t": "A", "spec": spec, "cfg": {"control": ctl, "iteration_limit": HORIZON[tier], "pv": vi}, "sc": G.scalings_of(spec, (0, 1))[vi % 2]})
     # (B)
     cfgs = G.configs_pairs() if tier == "quick" else G.configs_full()
     specsB = G.core_specs()
@@ -123,6 +128,20 @@ def integration_specs(tier):
     for Q, lb_, ub_, x0_, gr in ties:
         q = (_np.array(gr) - _np.array(Q).dot(_np.array(x0_))).tolist()
         out.append(G.raw(len(x0_), {"H": Q, "g": q}, [], lb_, ub_, x0_, f"boundary_tie|{Q}|{x0_}|{gr}"))
+    # a fixed variable in front of / behind a variable that starts pinned at a bound and has to be released later
+    for order in (0, 1):
+        H3 = [[2.0, 0.0, 0.0], [0.0, 1.0, 1.0], [0.0, 1.0, 2.0]]
+        g3 = [0.0, -2.0, -1.0]
+        lb3, ub3 = ["-inf", "-inf", "-inf"], ["inf", "inf", 0.0]
+        if order == 0:
+            lb3[0], ub3[0] = 1.0, 1.0
+            x03 = [1.0, 0.0, 0.0]
+        else:
+            H3 = [[1.0, 1.0, 0.0], [1.0, 2.0, 0.0], [0.0, 0.0, 2.0]]
+            g3 = [-2.0, -1.0, 0.0]
+            lb3, ub3 = ["-inf", "-inf", 1.0], ["inf", 0.0, 1.0]
+            x03 = [0.0, 0.0, 1.0]
+        out.append(G.raw(3, {"H": H3, "g": g3}, [], lb3, ub3, x03, f"fixed_and_pinned|{order}"))
     # coupled convex QPs started ON an upper bound whose multiplier changes sign along the flow
     for H, g, ub, x0 in (([[1.0, 1.0], [1.0, 2.0]], [-2.0, -1.0], ["inf", 0.0], [0.0, 0.0]), ([[1.0, 1.0], [1.0, 2.0]], [-1.0, -2.0], [0.0, "inf"], [0.0, 0.0]),
                          ([[1.0, 1.0], [1.0, 2.0]], [-2.0, 1.0], ["inf", 0.0], [0.0, 0.0]), ([[2.0, 1.5], [1.5, 2.0]], [-3.0, 0.5], [4.0, 0.0], [0.0, 0.0]),
@@ -134,6 +153,7 @@ def integration_specs(tier):
 def run_case(case):
     if case["t"] == "C":
         return run_integration(case)
+    case = G.with_variant(case)
     ctx = G.execute(case)
     if ctx.setup_error is not None:
         return {"outcome": "setup:" + type(ctx.setup_error).__name__, "key": None, "violations": [], "stats": {}}
